@@ -241,6 +241,7 @@ impl Prop for HelloPart {
         )
             .prop_map(
                 |((b11, std, url, schemes), unknown_caps, sid, caps_elem, sid_first, malform)| c12::Case {
+                    foreign_cap: None,
                     base10: true,
                     base11: b11,
                     caps: CapSet {
